@@ -39,40 +39,59 @@ func kindByName(n string) *kvKind {
 
 func (k *kvKind) fileBacked() bool { return k.typ != "" }
 
-// store is an open KeyValue and where it lives.
+// store is an open KeyValue and where it lives. raw is the implementation;
+// kv is what the index gets: for file-backed kinds a proxy that performs every
+// operation on the goroutine outside the synctest bubble (leveldb, kv and
+// database/sql keep background goroutines and timers that must not belong to
+// the bubble of one history).
 type store struct {
 	kind *kvKind
+	raw  sorted.KeyValue
 	kv   sorted.KeyValue
 	dir  string // scratch dir of a file-backed store
 }
 
 var scratchRoot string
 
-func (k *kvKind) open(dir string) (*store, error) {
+// open opens a store of the kind (dir "" = a fresh scratch directory).
+// onSet, if not nil, sees every row written (live side only).
+func (k *kvKind) open(dir string, onSet func(k, v string)) (*store, error) {
 	if !k.fileBacked() {
-		return &store{kind: k, kv: sorted.NewMemoryKeyValue()}, nil
-	}
-	if dir == "" {
-		if scratchRoot == "" {
-			scratchRoot = vk.Scratch("c06")
+		raw := sorted.NewMemoryKeyValue()
+		st := &store{kind: k, raw: raw, kv: raw}
+		if onSet != nil {
+			st.kv = &wrapKV{raw: raw, via: func(f func()) { f() }, onSet: onSet}
 		}
-		var err error
-		if dir, err = os.MkdirTemp(scratchRoot, k.Name); err != nil {
-			return nil, err
+		return st, nil
+	}
+	var st *store
+	var err error
+	outside(func() {
+		if dir == "" {
+			if scratchRoot == "" {
+				scratchRoot = vk.Scratch("c06")
+			}
+			if dir, err = os.MkdirTemp(scratchRoot, k.Name); err != nil {
+				return
+			}
 		}
-	}
-	kv, err := sorted.NewKeyValue(jsonconfig.Obj{"type": k.typ, "file": filepath.Join(dir, "index.db")})
-	if err != nil {
-		return nil, fmt.Errorf("NewKeyValue(%s): %v", k.typ, err)
-	}
-	return &store{kind: k, kv: kv, dir: dir}, nil
+		var raw sorted.KeyValue
+		raw, err = sorted.NewKeyValue(jsonconfig.Obj{"type": k.typ, "file": filepath.Join(dir, "index.db")})
+		if err != nil {
+			err = fmt.Errorf("NewKeyValue(%s): %v", k.typ, err)
+			return
+		}
+		st = &store{kind: k, raw: raw, dir: dir}
+		st.kv = &wrapKV{raw: raw, via: outside, onSet: onSet}
+	})
+	return st, err
 }
 
-func (s *store) close() error {
-	if c, ok := s.kv.(io.Closer); ok && s.kind.fileBacked() {
-		return c.Close()
+func (s *store) close() (err error) {
+	if c, ok := s.raw.(io.Closer); ok && s.kind.fileBacked() {
+		outside(func() { err = c.Close() })
 	}
-	return nil
+	return err
 }
 
 // reopen closes the store and opens the same file again (file-backed kinds).
@@ -80,12 +99,113 @@ func (s *store) reopen() (*store, error) {
 	if err := s.close(); err != nil {
 		return nil, fmt.Errorf("close: %v", err)
 	}
-	return s.kind.open(s.dir)
+	return s.kind.open(s.dir, nil)
 }
 
 func (s *store) discard() {
 	s.close()
 	if s.dir != "" {
-		os.RemoveAll(s.dir)
+		outside(func() { os.RemoveAll(s.dir) })
 	}
+}
+
+// wrapKV forwards every operation to raw through via and reports rows written.
+type wrapKV struct {
+	raw   sorted.KeyValue
+	via   func(func())
+	onSet func(k, v string)
+}
+
+func (w *wrapKV) Get(k string) (v string, err error) {
+	w.via(func() { v, err = w.raw.Get(k) })
+	return
+}
+
+func (w *wrapKV) Set(k, v string) (err error) {
+	if w.onSet != nil {
+		w.onSet(k, v)
+	}
+	w.via(func() { err = w.raw.Set(k, v) })
+	return
+}
+
+func (w *wrapKV) Delete(k string) (err error) {
+	w.via(func() { err = w.raw.Delete(k) })
+	return
+}
+
+type wrapBatch struct {
+	inner sorted.BatchMutation
+	w     *wrapKV
+}
+
+func (b *wrapBatch) Set(k, v string) {
+	if b.w.onSet != nil {
+		b.w.onSet(k, v)
+	}
+	b.inner.Set(k, v)
+}
+func (b *wrapBatch) Delete(k string) { b.inner.Delete(k) }
+
+func (w *wrapKV) BeginBatch() sorted.BatchMutation {
+	var bm sorted.BatchMutation
+	w.via(func() { bm = w.raw.BeginBatch() })
+	return &wrapBatch{inner: bm, w: w}
+}
+
+func (w *wrapKV) CommitBatch(b sorted.BatchMutation) (err error) {
+	wb, ok := b.(*wrapBatch)
+	if !ok {
+		return fmt.Errorf("c06: foreign batch %T", b)
+	}
+	w.via(func() { err = w.raw.CommitBatch(wb.inner) })
+	return
+}
+
+func (w *wrapKV) Find(start, end string) sorted.Iterator {
+	var it sorted.Iterator
+	w.via(func() { it = w.raw.Find(start, end) })
+	return &wrapIter{it: it, via: w.via}
+}
+
+func (w *wrapKV) Close() (err error) {
+	w.via(func() { err = w.raw.Close() })
+	return
+}
+
+type wrapIter struct {
+	it  sorted.Iterator
+	via func(func())
+}
+
+func (i *wrapIter) Next() (ok bool) { i.via(func() { ok = i.it.Next() }); return }
+func (i *wrapIter) Key() string     { return i.it.Key() }
+func (i *wrapIter) KeyBytes() []byte {
+	return i.it.KeyBytes()
+}
+func (i *wrapIter) Value() string { return i.it.Value() }
+func (i *wrapIter) ValueBytes() []byte {
+	return i.it.ValueBytes()
+}
+func (i *wrapIter) Close() (err error) { i.via(func() { err = i.it.Close() }); return }
+
+// Stores are opened, reopened and closed, and all their operations run, on a
+// goroutine outside the synctest bubble of a history.
+var (
+	svcReq   = make(chan func())
+	svcReply = make(chan struct{})
+)
+
+func init() {
+	go func() {
+		for f := range svcReq {
+			f()
+			svcReply <- struct{}{}
+		}
+	}()
+}
+
+func outside(f func()) {
+	svcReq <- f
+	<-svcReply
 }
